@@ -139,7 +139,13 @@ def make_cases(ctx, n):
         elif k == "ncc":
             c["x"] = tensor(rng, shp, lambda: dy(rng))
             c["y"] = tensor(rng, shp, lambda: dy(rng))
-            c["eps"] = rng.choice([1e-15, 1 / 1024, 0.25])
+            c["eps"] = rng.choice([1 / 1024, 0.25]) if (i // len(kinds)) % 4 else 1e-15
+            sel = (i // len(kinds)) % 5
+            if sel in (1, 2, 3):
+                c["mask"] = mask_for(rng, form, N, C, sp, sel == 1)       # binary or soft weights, every (1|N, 1|C) form
+            elif sel == 4 and rng.random() < 0.5:
+                c["mask"] = bad_mask(rng, N, C, sp)
+                c["malformed"] = c["mask"] is not None
         elif k in ("lcc", "wlcc"):
             if k == "wlcc":
                 # weighted local means have arbitrary denominators: keep images small and epsilon dyadic so that the
@@ -226,6 +232,10 @@ def gen_cases(ctx):
     out.append({"kind": "ncc", "reduction": "none", "x": t(s22), "y": t(s22), "eps": e, "gen": "gen_ncc", "args": "xy", "scal": [e]})
     out.append({"kind": "ncc", "reduction": "mean", "x": t([2, 1, 1, 2]), "y": t([2, 1, 1, 2]), "eps": e, "gen": "gen_ncc_batch_mean",
                 "args": "xy", "scal": [e]})
+    out.append({"kind": "ncc", "reduction": "none", "x": t(s22), "y": t(s22), "mask": t(s22, 0, 1), "eps": e, "gen": "gen_ncc_mask",
+                "args": "xyw", "scal": [e]})
+    out.append({"kind": "ncc", "reduction": "sum", "x": t([2, 2, 1, 2]), "y": t([2, 2, 1, 2]), "mask": t([1, 1, 1, 2], 0, 1), "eps": e,
+                "gen": "gen_ncc_mask_bcast", "args": "xyw", "scal": [e]})
     out.append({"kind": "lcc", "reduction": "none", "x": t(s14), "y": t(s14), "mask": None, "ks": [1, 3], "eps": e, "gen": "gen_lcc14",
                 "args": "xy", "scal": [e]})
     out.append({"kind": "lcc", "reduction": "mean", "x": t(s14), "y": t(s14), "mask": t(s14, 0, 1), "ks": [1, 3], "eps": e,
@@ -260,7 +270,7 @@ def model_term(c):
         norm = "None" if c.get("norm") is None else f"(Some {qc(c['norm'])})"
         return f"b_elementwise (K:=QcF) Qcleb' {f} {r} {x} {y} {sh} {coq_mask(c.get('mask'))} {norm}"
     if k == "ncc":
-        return f"b_ncc (K:=QcF) {r} {qc(c['eps'])} {x} {y}"
+        return f"b_ncc (K:=QcF) {r} {qc(c['eps'])} {x} {y} {sh} {coq_mask(c.get('mask'))}"
     if k == "lcc":
         return f"b_lcc (K:=QcF) {r} {sh} {coq_nats(c['ks'])} {qc(c['eps'])} {x} {y} {coq_mask(c.get('mask'))}"
     if k == "wlcc":
@@ -434,6 +444,5 @@ MANIFEST_ENTRY = {
             "model (C16_gen_*), and the list model is run (vm_compute, Qc) against the implementation for D in {2,3}, batches, channels, "
             "all mask forms, window sizes.",
     "note": "Partial: MI/NMI values and ranges, huber/smooth-l1 kernels (torch primitives, modelled), module wrappers and the with_logits/"
-            "binarize/one-hot input conversions are covered by implementation-side evaluation only. ncc_loss with a mask is not "
-            "modelled (the call always raises). Trusted: Coq kernel, vm_compute, tools/symtorch.py, float32 rounding outside the model.",
+            "binarize/one-hot input conversions are covered by implementation-side evaluation only. Trusted: Coq kernel, vm_compute, tools/symtorch.py, float32 rounding outside the model.",
 }
